@@ -58,6 +58,26 @@ def run_history(ctx, exe, rng, idx):
                 a, h = rng.choice(free_slots)
                 n = rng.choice(names)
                 exists = inst[n] is not None
+                if rng.random() < 0.08:
+                    # no free descriptor in the calling process: p_shm_new must fail and leave the name (segment and lock semaphore) exactly as it was
+                    what = "new agent%d h%d %s size=4096 with the descriptor table full" % (a, h, n[-1])
+                    log.append(what)
+                    before = (os.path.exists(agents.shm_path(n)), os.path.getsize(agents.shm_path(n)) if os.path.exists(agents.shm_path(n)) else -1, os.path.exists(agents.shm_lock_path(n)))
+                    ags[a].cmd("nofd 1")
+                    res = ags[a].cmd("shmnew %d %s 4096 w" % (h, n))
+                    ags[a].cmd("nofd 0")
+                    st["new_without_descriptors"] += 1
+                    after = (os.path.exists(agents.shm_path(n)), os.path.getsize(agents.shm_path(n)) if os.path.exists(agents.shm_path(n)) else -1, os.path.exists(agents.shm_lock_path(n)))
+                    if res.startswith("ok"):
+                        ok = fail("history symptom=new-succeeded-without-descriptors", "p_shm_new returned a handle although shm_open failed with EMFILE")
+                        break
+                    if before != after:
+                        ok = fail("history symptom=failed-new-changed-the-name", "a p_shm_new that failed for lack of descriptors changed the name: (segment exists, size, lock semaphore exists) %s -> %s" % (before, after))
+                        break
+                    if not verify_all(what):
+                        ok = False
+                        break
+                    continue
                 if not exists and rng.random() < 0.15:
                     # a creation that cannot succeed (nothing to map / larger than any file): must fail and leave no name behind,
                     # so that the next p_shm_new is a fresh creation of its own size
